@@ -114,6 +114,11 @@ def report(res, cases, summary, bad, seed, tier):
                           % (what, len(idx), c.get("Id"), q),
                           {"kind": "correspondence", "query": q, "n_disagreements": len(idx), "Input": c,
                            "also_oracle_failure": sorted(set(idx) & reported)[:10]}, no_input=True)
+    if summary.get("Unreadable"):
+        i = summary["Unreadable"][0]
+        res.violation(None, "the harness cannot read the printed configuration back into clauses on %d cases (e.g. case %s) although no text-level defect shape was planted: the printed format changed"
+                      % (len(summary["Unreadable"]), i),
+                      {"kind": "correspondence", "query": "printed-format", "Input": get(i) or {"Id": i}}, no_input=True)
     if bad["T"]:
         c = get(bad["T"][0]) or {"Id": bad["T"][0]}
         res.violation(None, "on %d cases the clause list the harness read back from the printed text does not render (Model/Config.v render, printCfg's layout) to that text, e.g. case %s: the printed format changed or the reader of the harness is wrong"
